@@ -265,6 +265,9 @@ func (r *Rewriter) stmtListAlts(items []*N, flex, first bool) [][]*N {
 		plain = append(plain, r.rewrite(s, flex))
 	}
 	res := [][]*N{plain}
+	if len(trail) >= len(items) {
+		return res // the pattern consumed nothing: no later instances to consider
+	}
 	for _, la := range r.stmtListAlts(trail, flex, false) {
 		if len(res) >= 8 {
 			break
